@@ -2,7 +2,7 @@ import Proofs.SchedProgress
 import Proofs.SchedRestart
 
 /-! A failed job object blocks its fork for as long as it is not reset
-(C06 `failed_job_never_reports_success_partial`). -/
+(C06 `failed_job_never_reports_success`, `failed_block_never_reports_success`). -/
 namespace Martian.Sched
 
 /-- how a sentinel becomes visible in a fork's own metadata: mrp writes it (the fork's directory
